@@ -156,7 +156,7 @@ fn configs(tier: Tier) -> Vec<Config> {
     v
 }
 
-const VARIANTS: [&str; 6] = ["depth 0", "loop depth 1", "loop depth 2", "repeat row", "variables named C X Z c x z", "loop counter named X"];
+const VARIANTS: [&str; 8] = ["depth 0", "loop depth 1", "loop depth 2", "repeat row", "variables named C X Z c x z", "loop counter named X", "row inside a while", "row inside a while inside a loop"];
 
 fn wrap(variant: usize, row: Vec<Entry>, last: &[Entry]) -> Vec<Stmt> {
     let tail = Stmt::Row(last.to_vec());
@@ -173,7 +173,10 @@ fn wrap(variant: usize, row: Vec<Entry>, last: &[Entry]) -> Vec<Stmt> {
             b.push(tail);
             b
         }
-        _ => vec![Stmt::Loop("X".into(), lit(2), vec![Stmt::Let("k".into(), name("X")), Stmt::Row(row)]), tail],
+        5 => vec![Stmt::Loop("X".into(), lit(2), vec![Stmt::Let("k".into(), name("X")), Stmt::Row(row)]), tail],
+        // the only rows with C / X entries of the program stand in a while body
+        6 => vec![Stmt::Let("k".into(), lit(0)), Stmt::While(bin(BinOp::Lt, name("k"), lit(2)), vec![Stmt::Row(row), Stmt::Let("k".into(), bin(BinOp::Add, name("k"), lit(1)))]), tail],
+        _ => vec![Stmt::Loop("j".into(), lit(2), vec![Stmt::Let("k".into(), lit(1)), Stmt::While(bin(BinOp::Lt, name("k"), lit(2)), vec![Stmt::Let("k".into(), bin(BinOp::Add, name("k"), lit(1))), Stmt::Row(row)])]), tail],
     }
 }
 
@@ -234,7 +237,7 @@ pub fn run(tier: Tier, seed: u64) -> i32 {
         }
         for (bp, rad) in &families {
             let n = product(rad) * VARIANTS.len() as u64;
-            let label = format!("config {} / {} / x6 program forms", cfg.name, match bp { None => "plain entries".to_string(), Some(c) => format!("bits(2,k) over columns {c},{}", c + 1) });
+            let label = format!("config {} / {} / x8 program forms", cfg.name, match bp { None => "plain entries".to_string(), Some(c) => format!("bits(2,k) over columns {c},{}", c + 1) });
             let script = vec![Step::Ans(cfg.answer.clone())];
             let st = par_range(&label, n, &deadline, |idx, st| {
                 let variant = (idx % VARIANTS.len() as u64) as usize;
